@@ -1,62 +1,175 @@
+// Command c06 runs the real wallet.Wallet over a simulated chain and judges
+// every transaction it creates (property C06): inputs eligible by an
+// independent ledger, used once, never reused after publication, explicit
+// selections of ineligible outputs refused, signatures valid under the script
+// engine.  One JSON object per wallet history:
+//
+//	{"in": {wseed, ops}, "obs": {reqs...}, "oracle": [kinds], "viol": [...], "tags": [...]}
 package main
 
 import (
+	"encoding/json"
 	"fmt"
 	"os"
-	"time"
+	"runtime"
+	"sort"
+	"sync"
 
-	"github.com/btcsuite/btcwallet/waddrmgr"
-	"verifharness/internal/simchain"
-	"verifharness/internal/walletenv"
+	"verifharness/internal/core"
+	"verifharness/internal/gen"
 )
 
-func main() {
-	if len(os.Args) > 1 {
-		os.Setenv("TMPDIR", os.Args[1])
-	}
-	t0 := time.Now()
-	seed := make([]byte, 32)
-	seed[0] = 7
-	env, err := walletenv.New(seed, time.Unix(1600000000, 0), 0, nil)
+type c06Case struct {
+	In     c06Input    `json:"in"`
+	Obs    c06Obs      `json:"obs"`
+	Oracle []string    `json:"oracle"`
+	Viol   []violation `json:"viol"`
+	Tags   []string    `json:"tags"`
+}
+
+// probeDeepReorg: can this wallet detach two blocks in a row?  (It cannot
+// while disconnectBlock records an all-zero hash for the new tip - DESIGN
+// section 6, S1, property C15.  Reorganisations deeper than one block are
+// generated only when it can, so that C06 does not report C15's finding.)
+func probeDeepReorg() (bool, error) {
+	t, err := newTrace(0, true)
 	if err != nil {
-		panic(err)
+		return false, err
 	}
-	defer env.Close()
-	w := env.W
-	ch := simchain.New(env.Params)
-	w.VerifSetChainClient(ch)
-	w.SetChainSynced(true)
-	if err := w.Unlock(walletenv.PrivPass, nil); err != nil {
-		panic(err)
+	defer t.close()
+	if err := t.exec(op{K: "mine", N: 3, Include: "none"}); err != nil {
+		return false, err
 	}
-	fmt.Println("create+unlock", time.Since(t0))
-	t0 = time.Now()
-	for _, sc := range waddrmgr.DefaultKeyScopes {
-		for i := 1; i <= 2; i++ {
-			a, err := w.NextAccount(sc, fmt.Sprintf("a%d", i))
-			if err != nil {
-				panic(err)
+	if err := t.exec(op{K: "reorg", Depth: 2, N: 0}); err != nil {
+		return false, err
+	}
+	return t.w.Manager.SyncedTo().Height == 1, nil
+}
+
+// run executes in.Ops; gen (optional) produces further operations online.
+func run(in c06Input, deep bool, g func(t *trace, i int) *op) (c06Case, error) {
+	cs := c06Case{Oracle: []string{}, Viol: []violation{}, Tags: []string{}}
+	t, err := newTrace(in.WSeed, deep)
+	if err != nil {
+		return cs, err
+	}
+	defer t.close()
+	step := func(o op) (bool, error) {
+		if err := t.exec(o); err != nil {
+			return false, fmt.Errorf("op %d %s: %w", len(cs.In.Ops), o.K, err)
+		}
+		cs.In.Ops = append(cs.In.Ops, o)
+		return len(t.viols) > 0, nil
+	}
+	cs.In.WSeed = in.WSeed
+	cs.In.Ops = []op{}
+	stop := false
+	for _, o := range in.Ops {
+		if stop, err = step(o); err != nil || stop {
+			break
+		}
+	}
+	for i := 0; g != nil && err == nil && !stop; i++ {
+		o := g(t, i)
+		if o == nil {
+			break
+		}
+		stop, err = step(*o)
+	}
+	cs.Obs = c06Obs{Reqs: t.reqs, Deep: deep, OpsRun: len(cs.In.Ops)}
+	if cs.Obs.Reqs == nil {
+		cs.Obs.Reqs = []reqObs{}
+	}
+	if err != nil {
+		cs.Obs.Problem = err.Error()
+	}
+	if stop {
+		t.tags["stopped_after_violation"] = true
+	}
+	seen := map[string]bool{}
+	for _, v := range t.viols {
+		cs.Viol = append(cs.Viol, v)
+		if !seen[v.Kind] {
+			seen[v.Kind] = true
+			cs.Oracle = append(cs.Oracle, v.Kind)
+		}
+	}
+	for k := range t.tags {
+		cs.Tags = append(cs.Tags, k)
+	}
+	sort.Strings(cs.Tags)
+	return cs, err
+}
+
+func main() {
+	if _, err := os.Stat("/dev/shm"); err == nil && os.Getenv("VERIF_KEEP_TMPDIR") == "" {
+		os.Setenv("TMPDIR", "/dev/shm")
+	}
+	core.Main("c06", nil, func(c *core.Common, out *core.Emitter) error {
+		deep, err := probeDeepReorg()
+		if err != nil {
+			return err
+		}
+		if c.Replay != "" {
+			return core.ReadReplay(c.Replay, func(raw json.RawMessage) error {
+				var cs struct {
+					In c06Input `json:"in"`
+				}
+				if err := json.Unmarshal(raw, &cs); err != nil {
+					return err
+				}
+				res, err := run(cs.In, deep, nil)
+				res.Tags = append(res.Tags, "replay")
+				out.Emit(res)
+				return err
+			})
+		}
+		type job struct {
+			in  c06Input
+			gen func(t *trace, i int) *op
+			tag string
+		}
+		var jobs []job
+		for _, s := range systematic() {
+			jobs = append(jobs, job{in: s.in, tag: "systematic:" + s.name})
+		}
+		for i := 0; i < c.N; i++ {
+			r := gen.New(c.Seed, int64(600+i))
+			n := r.Range(18, 42)
+			if c.Tier == "thorough" {
+				n = r.Range(18, 70)
 			}
-			_ = a
+			jobs = append(jobs, job{in: c06Input{WSeed: r.Intn(3)}, gen: randomOps(r, n), tag: "random"})
 		}
-	}
-	fmt.Println("8 accounts", time.Since(t0))
-	t0 = time.Now()
-	for _, sc := range waddrmgr.DefaultKeyScopes {
-		for i := uint32(0); i <= 2; i++ {
-			_, err := w.NewAddress(i, sc)
-			if err != nil {
-				panic(err)
+		results := make([]c06Case, len(jobs))
+		errs := make([]error, len(jobs))
+		workers := runtime.NumCPU()
+		if workers > 10 {
+			workers = 10
+		}
+		var wg sync.WaitGroup
+		next := make(chan int)
+		for w := 0; w < workers; w++ {
+			wg.Add(1)
+			go func() {
+				defer wg.Done()
+				for i := range next {
+					results[i], errs[i] = run(jobs[i].in, deep, jobs[i].gen)
+					results[i].Tags = append(results[i].Tags, jobs[i].tag)
+				}
+			}()
+		}
+		for i := range jobs {
+			next <- i
+		}
+		close(next)
+		wg.Wait()
+		for i := range jobs {
+			out.Emit(results[i])
+			if errs[i] != nil {
+				return fmt.Errorf("case %d (%s): %w", i, jobs[i].tag, errs[i])
 			}
 		}
-	}
-	fmt.Println("12 addrs", time.Since(t0))
-	t0 = time.Now()
-	for i := 0; i < 100; i++ {
-		b := ch.Extend(nil, nil)
-		if err := w.VerifConnectBlock(b.Meta()); err != nil {
-			panic(err)
-		}
-	}
-	fmt.Println("100 blocks", time.Since(t0))
+		return nil
+	})
 }
